@@ -73,4 +73,8 @@ def polled (w : WSt) (selfWoken progress : Bool) : WSt × List Viol :=
 def unsolicitedPoll (parked woken input wrote : Bool) : List Viol :=
   if parked && !woken && !input && wrote then ["C06 work-was-queued-without-waking-the-connection-task"] else []
 
+/-- C07: once the connection object is gone, no operation on any of its handles may stay pending -/
+def afterEnd (op result streamState : String) : List Viol :=
+  if result == "pending" then [s!"C07 {op}-still-pending-after-the-connection-is-gone(stream:{streamState})"] else []
+
 end H2V.Spec.Verdict
